@@ -7,6 +7,8 @@ from ..r_codebooks import rule_mark_parity
 from ..r_protocol import run_protocol
 from ..r_alias import rule_no_stale_alias, rule_fix_stereo_exit, rule_row_order
 from ..r_hygiene import rule_hygiene as _rule_hygiene
+from ..r_alias import rule_retry_flush as _rule_retry_flush
+from ..r_stereo import rule_pair_key_symmetry as _rule_pair_key
 
 LEVEL = 'other'
 
@@ -28,3 +30,5 @@ def run(ck, repo):
     run_protocol(ck, repo, 'C12.D5-fix_stereo-reached', only_dims={'STEREO'})
     rule_distinctness_predicates(ck, repo, 'C12.D6-distinctness-predicates')
     _rule_hygiene(ck, repo, 'C12.H-dataflow-hygiene', 'C12')
+    _rule_retry_flush(ck, repo, 'C12.D5-retry-flush', ['chython.files.daylight.smiles', 'chython.files.mdl.stereo', 'chython.files.libinchi.wrapper'], 3)
+    _rule_pair_key(ck, repo, 'C12.D6-pair-key-symmetry')
